@@ -38,8 +38,29 @@ TIterStart == IsEv("iter_start") /\ rest' = SeqSet(Rec[l].a)
 TIterNext  == IsEv("iter_next") /\ (rest # {} /\ Rec[l].ret = MinOf(rest)) = TRUE /\ rest' = rest \ {Rec[l].ret}
 TIterEnd   == IsEv("iter_end") /\ (rest = {}) = TRUE /\ UNCHANGED rest
 
+(* The Iterator trait's provided methods must agree with plain iteration in ascending order. *)
+RECURSIVE SortedSeq(_)
+SortedSeq(S) == IF S = {} THEN <<>> ELSE LET m == MinOf(S) IN <<m>> \o SortedSeq(S \ {m})
+Drop(q, n) == IF n >= Len(q) THEN <<>> ELSE SubSeq(q, n + 1, Len(q))
+EveryKth(q, k) == [i \in 1..((Len(q) + k - 1) \div k) |-> q[(i - 1) * k + 1]]
+
+TAdaptor ==
+  /\ IsEv("adaptor") /\ UNCHANGED rest
+  /\ LET r == Rec[l]
+         S == SeqSet(r.a)
+         q == SortedSeq(S)
+     IN (CASE r.what = "nth"     -> /\ r.ret = (IF r.n < Len(q) THEN <<q[r.n + 1]>> ELSE <<>>)
+                                    /\ r.after = Drop(q, r.n + 1)
+           [] r.what = "last"    -> r.ret = (IF S = {} THEN <<>> ELSE <<MaxOf(S)>>)
+           [] r.what = "max"     -> r.ret = (IF S = {} THEN <<>> ELSE <<MaxOf(S)>>)
+           [] r.what = "min"     -> r.ret = (IF S = {} THEN <<>> ELSE <<MinOf(S)>>)
+           [] r.what = "count"   -> r.ret = <<Cardinality(S)>>
+           [] r.what = "skip"    -> r.ret = Drop(q, r.n)
+           [] r.what = "step_by" -> r.ret = EveryKth(q, r.n)
+           [] r.what = "collect" -> r.ret = q) = TRUE
+
 BInit == l = 1 /\ rest = {}
-BNext == TBin \/ TNot \/ TCount \/ TFirst \/ TFromSq \/ TRev \/ TNew \/ TIterStart \/ TIterNext \/ TIterEnd
+BNext == TAdaptor \/ TBin \/ TNot \/ TCount \/ TFirst \/ TFromSq \/ TRev \/ TNew \/ TIterStart \/ TIterNext \/ TIterEnd
 BSpec == BInit /\ [][BNext]_bv
 Accepted ==
   LET d == TLCGet("stats").diameter - 1
